@@ -167,7 +167,7 @@ class DoctestPart:
         if self.line_offset is not None:
             parts.append('ln %s' % (self.line_offset))
         if self.source:
-            head_src = self.source.splitlines()[0][0:8]
+            head_src = utils.util_str.split_lf_lines(self.source)[0][0:8]
             parts.append('src="%s..."' % (head_src,))
         else:
             parts.append('src=""')
@@ -175,7 +175,7 @@ class DoctestPart:
         if self.want is None:
             parts.append('want=None')
         else:
-            head_wnt = self.want.splitlines()[0][0:8]
+            head_wnt = utils.util_str.split_lf_lines(self.want)[0][0:8]
             parts.append('want="%s..."' % (head_wnt,))
         return ', '.join(parts)
 
@@ -303,7 +303,7 @@ class DoctestPart:
             n_digits = math.log(max(1, endline), 10)
             n_digits = int(math.ceil(n_digits))
 
-        part_lines = src_text.splitlines()
+        part_lines = utils.util_str.split_lf_lines(src_text)
         n_spaces = 0
 
         if linenos:
@@ -322,7 +322,7 @@ class DoctestPart:
         want_lines = []
         if want_text:
             want_fmt = ' ' * n_spaces + '{line}'
-            for line in want_text.splitlines():
+            for line in utils.util_str.split_lf_lines(want_text):
                 if want:
                     want_lines.append(want_fmt.format(line=line))
 
